@@ -112,7 +112,9 @@ class StreamHandler(AsyncStreamRequestHandler):
     def _port(self, client) -> int:
         from easynetwork.servers.handlers import INETClientAttribute
 
-        return client.extra(INETClientAttribute.remote_address).port
+        # (host, port): every harness client binds its own random 127.x.y.z address, so equal port numbers do occur
+        a = client.extra(INETClientAttribute.remote_address)
+        return (a.host, a.port)  # type: ignore[return-value]
 
     def _is_faulty(self, client) -> bool:
         return self._port(client) in self.faulty
@@ -322,7 +324,7 @@ def tcp_scenario(tls: bool, exc: str | None, position: str | None, setup_fault: 
             s = socket.socket()
             s.setblocking(False)
             s.bind((netutil.rand_loopback(), 0))
-            port = s.getsockname()[1]
+            port = s.getsockname()[:2]
             faulty_ports.add(port)
             res["faulty_port"] = port
             res["faulty_ports"].append(port)
@@ -447,7 +449,8 @@ class DgramHandler(AsyncDatagramRequestHandler):
     async def handle(self, client):
         from easynetwork.servers.handlers import INETClientAttribute
 
-        port = client.extra(INETClientAttribute.remote_address).port
+        _a = client.extra(INETClientAttribute.remote_address)
+        port = (_a.host, _a.port)  # every harness client has its own 127.x.y.z address: port numbers alone collide
         self.gens[port] = self.gens.get(port, 0) + 1
         gid = self.gens[port]
         faulty = port in self.faulty and port not in self.raised
@@ -521,7 +524,7 @@ def udp_scenario(exc: str, position: str) -> dict:
 
         async def faulty():
             s = usock()
-            port = s.getsockname()[1]
+            port = s.getsockname()[:2]
             faulty_ports.add(port)
             res["faulty_port"] = port
             try:
